@@ -16,6 +16,7 @@ import (
 	"strings"
 	"sync"
 	"testing"
+	"time"
 
 	"github.com/enbility/spine-go/api"
 	"github.com/enbility/spine-go/model"
@@ -128,6 +129,9 @@ func (x *gateRun) exec(op string) {
 		x.park, x.spec, x.heldAt, x.wrAt, x.gone, x.valOf = map[uint64]*api.Message{}, map[string]bool{}, map[int]bool{}, map[int]bool{}, map[int]bool{}, map[int]int{}
 		x.ctr = 100
 		x.fl = x.w.l.FeatureByAddress(h.FA(dispLocalDev, []uint{1}, 1))
+		// the approval timer is not the subject here (C12): far beyond any scheduling delay of a loaded machine; every
+		// parked write is approved, denied or cleaned up before the schedule ends
+		x.fl.SetWriteApprovalTimeout(10 * time.Minute)
 		_ = x.fl.AddWriteApprovalCallback(func(msg *api.Message) {
 			x.mu.Lock()
 			defer x.mu.Unlock()
@@ -234,9 +238,21 @@ func (x *gateRun) exec(op string) {
 			return
 		}
 		errs, other := x.results(p)
-		x.mu.Lock()
-		_, parked := x.park[ctr]
-		x.mu.Unlock()
+		isParked := func() bool {
+			x.mu.Lock()
+			defer x.mu.Unlock()
+			_, ok := x.park[ctr]
+			return ok
+		}
+		parked := isParked()
+		// the callback runs in a goroutine of its own: on a loaded machine it may not have run when the settle rule
+		// gives up. Neither outcome observed yet is "not finished", never a verdict: wait (bounded) for one of the two.
+		for t0 := time.Now(); !parked && len(errs) == 0 && time.Since(t0) < 20*time.Second; {
+			time.Sleep(2 * time.Millisecond)
+			e2, o2 := x.results(p)
+			errs, other = append(errs, e2...), other+o2
+			parked = isParked()
+		}
 		x.heldAt[i], x.wrAt[i], x.valOf[i] = x.spec[key], wr, v
 		impl := "?"
 		switch {
